@@ -61,6 +61,8 @@ def gen_case(rng, tier):
 def gen(rng, tier):
     for c in svcref.preempt_cases():
         yield c
+    for c in outside_cases():
+        yield c
     k = 0
     while True:
         k += 1
@@ -91,35 +93,24 @@ def corpus():
     ]
 
 
-CONCURRENT_CALLS = 'C13/concurrent-register-unregister-misaligns-handles'
+def outside_statement(case):
+    """two application threads inside add_custom / remove_custom at once: the statement speaks of SEQUENCES of calls, so
+    these cases are run and recorded (label 'outside-statement') but not judged"""
+    return case.get('kind') == 'preempt' and case['victim']['op'] in ('register', 'unregister') \
+        and case['intruder']['op'] in ('register', 'unregister')
 
 
-def known_replays():
+def outside_cases():
     ap = {'op': 'applyTask', 'i': 0}
-    what1 = ('two application threads in register_tracepoint at the same time: add_custom appends to the parallel lists '
-             '_custom and _custom_ids in two statements without a lock; a call parked between them while the other runs '
-             'leaves the lists misaligned, and its handle then removes the OTHER registration')
-    what2 = ('two unregister calls at the same time: the one parked between its two `del`s removes the id at a stale '
-             'index, the wrong registration stays installed')
     out = []
-    # the park position is counted in executed lines: a few neighbouring positions, the misaligning one is among them
     for k in (4, 5, 6):
-        out.append((CONCURRENT_CALLS, what1,
-                    {'kind': 'preempt', 'k': k, 'prefix': [svcref._r('a'), ap], 'victim': svcref._r('b', 11),
-                     'intruder': svcref._r('c', 12), 'then': [{'op': 'unregister', 'handle': 2}]}))
+        out.append({'kind': 'preempt', 'k': k, 'prefix': [svcref._r('a'), ap], 'victim': svcref._r('b', 11),
+                    'intruder': svcref._r('c', 12), 'then': [{'op': 'unregister', 'handle': 2}]})
     for k in (3, 4, 5):
-        out.append((CONCURRENT_CALLS, what2,
-                    {'kind': 'preempt', 'k': k,
-                     'prefix': [svcref._r('a'), svcref._r('b', 11), svcref._r('c', 12), ap, ap, ap],
-                     'victim': {'op': 'unregister', 'handle': 1}, 'intruder': {'op': 'unregister', 'handle': 0}}))
+        out.append({'kind': 'preempt', 'k': k,
+                    'prefix': [svcref._r('a'), svcref._r('b', 11), svcref._r('c', 12), ap, ap, ap],
+                    'victim': {'op': 'unregister', 'handle': 1}, 'intruder': {'op': 'unregister', 'handle': 0}})
     return out
-
-
-def known_finding(case, obs):
-    if case.get('kind') == 'preempt' and case['victim']['op'] in ('register', 'unregister') \
-            and case['intruder']['op'] in ('register', 'unregister'):
-        return CONCURRENT_CALLS
-    return None
 
 
 def run_impl(case):
@@ -131,6 +122,8 @@ def run_impl(case):
 
 
 def oracle(case, obs):
+    if outside_statement(case):
+        return []
     if case['kind'] == 'hits':
         return svcref.hits_oracle(case, obs)
     if case['kind'] == 'preempt':
@@ -186,6 +179,10 @@ def label(case, obs):
     if case['kind'] == 'hits':
         forms = {r['form'].get('watches', 'omitted') for r in case['regs']}
         return 'hits/watches-' + '+'.join(sorted(forms))
+    if outside_statement(case):
+        return 'outside-statement/concurrent-%s-vs-%s/%s' % (
+            case['victim']['op'], case['intruder']['op'],
+            'lists-misaligned' if svcref.preempt_oracle(case, obs) else 'consistent')
     if case['kind'] == 'preempt':
         return 'preempt/%s-vs-%s/%s' % (case['victim']['op'], case['intruder']['op'],
                                         'parked' if obs.get('reached') else 'beyond-last-line')
@@ -195,6 +192,8 @@ def label(case, obs):
 
 
 def nontrivial(case, obs):
+    if outside_statement(case):
+        return False
     if case['kind'] == 'hits':
         return any(r['form'].get(k, 'omitted') != 'nonempty' for r in case['regs'] for k in ('args', 'watches', 'metrics'))
     if case['kind'] == 'preempt':
